@@ -224,9 +224,12 @@ func (g *graphMemoizer) Objects(ctx context.Context, s *node.Node, p *predicate.
 	}
 	wg.Wait()
 	verifYield("read.fill")
-	g.mu.Lock()
-	g.memO[k] = mobjs
-	g.mu.Unlock()
+	if err == nil {
+		// Only complete results are memoized.
+		g.mu.Lock()
+		g.memO[k] = mobjs
+		g.mu.Unlock()
+	}
 	return err
 }
 
@@ -295,9 +298,12 @@ func (g *graphMemoizer) Subjects(ctx context.Context, p *predicate.Predicate, o 
 	}
 	wg.Wait()
 	verifYield("read.fill")
-	g.mu.Lock()
-	g.memN[k] = msubs
-	g.mu.Unlock()
+	if err == nil {
+		// Only complete results are memoized.
+		g.mu.Lock()
+		g.memN[k] = msubs
+		g.mu.Unlock()
+	}
 	return err
 }
 
@@ -356,9 +362,12 @@ func (g *graphMemoizer) PredicatesForSubject(ctx context.Context, s *node.Node, 
 	}
 	wg.Wait()
 	verifYield("read.fill")
-	g.mu.Lock()
-	g.memP[k] = mpreds
-	g.mu.Unlock()
+	if err == nil {
+		// Only complete results are memoized.
+		g.mu.Lock()
+		g.memP[k] = mpreds
+		g.mu.Unlock()
+	}
 	return err
 }
 
@@ -417,9 +426,12 @@ func (g *graphMemoizer) PredicatesForObject(ctx context.Context, o *triple.Objec
 	}
 	wg.Wait()
 	verifYield("read.fill")
-	g.mu.Lock()
-	g.memP[k] = mpreds
-	g.mu.Unlock()
+	if err == nil {
+		// Only complete results are memoized.
+		g.mu.Lock()
+		g.memP[k] = mpreds
+		g.mu.Unlock()
+	}
 	return err
 }
 
@@ -478,9 +490,12 @@ func (g *graphMemoizer) PredicatesForSubjectAndObject(ctx context.Context, s *no
 	}
 	wg.Wait()
 	verifYield("read.fill")
-	g.mu.Lock()
-	g.memP[k] = mpreds
-	g.mu.Unlock()
+	if err == nil {
+		// Only complete results are memoized.
+		g.mu.Lock()
+		g.memP[k] = mpreds
+		g.mu.Unlock()
+	}
 	return err
 }
 
@@ -539,9 +554,12 @@ func (g *graphMemoizer) TriplesForSubject(ctx context.Context, s *node.Node, lo 
 	}
 	wg.Wait()
 	verifYield("read.fill")
-	g.mu.Lock()
-	g.memT[k] = mts
-	g.mu.Unlock()
+	if err == nil {
+		// Only complete results are memoized.
+		g.mu.Lock()
+		g.memT[k] = mts
+		g.mu.Unlock()
+	}
 	return err
 }
 
@@ -600,9 +618,12 @@ func (g *graphMemoizer) TriplesForPredicate(ctx context.Context, p *predicate.Pr
 	}
 	wg.Wait()
 	verifYield("read.fill")
-	g.mu.Lock()
-	g.memT[k] = mts
-	g.mu.Unlock()
+	if err == nil {
+		// Only complete results are memoized.
+		g.mu.Lock()
+		g.memT[k] = mts
+		g.mu.Unlock()
+	}
 	return err
 }
 
@@ -661,9 +682,12 @@ func (g *graphMemoizer) TriplesForObject(ctx context.Context, o *triple.Object, 
 	}
 	wg.Wait()
 	verifYield("read.fill")
-	g.mu.Lock()
-	g.memT[k] = mts
-	g.mu.Unlock()
+	if err == nil {
+		// Only complete results are memoized.
+		g.mu.Lock()
+		g.memT[k] = mts
+		g.mu.Unlock()
+	}
 	return err
 }
 
@@ -722,9 +746,12 @@ func (g *graphMemoizer) TriplesForSubjectAndPredicate(ctx context.Context, s *no
 	}
 	wg.Wait()
 	verifYield("read.fill")
-	g.mu.Lock()
-	g.memT[k] = mts
-	g.mu.Unlock()
+	if err == nil {
+		// Only complete results are memoized.
+		g.mu.Lock()
+		g.memT[k] = mts
+		g.mu.Unlock()
+	}
 	return err
 }
 
@@ -783,9 +810,12 @@ func (g *graphMemoizer) TriplesForPredicateAndObject(ctx context.Context, p *pre
 	}
 	wg.Wait()
 	verifYield("read.fill")
-	g.mu.Lock()
-	g.memT[k] = mts
-	g.mu.Unlock()
+	if err == nil {
+		// Only complete results are memoized.
+		g.mu.Lock()
+		g.memT[k] = mts
+		g.mu.Unlock()
+	}
 	return err
 }
 
@@ -861,8 +891,11 @@ func (g *graphMemoizer) Triples(ctx context.Context, lo *storage.LookupOptions, 
 	}
 	wg.Wait()
 	verifYield("read.fill")
-	g.mu.Lock()
-	g.memT[k] = mts
-	g.mu.Unlock()
+	if err == nil {
+		// Only complete results are memoized.
+		g.mu.Lock()
+		g.memT[k] = mts
+		g.mu.Unlock()
+	}
 	return err
 }
